@@ -7,6 +7,12 @@ props = [json.loads(l) for l in open('/verif/properties.jsonl')]
 plist = '\n'.join(f"  {p['id']}: {p['title']} — {p['statement']}" for p in props)
 AREAS = {
  '5': {},
+ '10': {'nums': ('any file of the package', 'numbers: the num of hierarchical elements and items, its escaping, clean_num, counters for unnumbered elements, clash suffixes, attachment numbering'),
+        'esc': ('any file of the package', 'backslash escaping across the pipeline: pre_parse, the grammar escape rule, unescape in types.py, the escaping helpers of the stylesheet'),
+        'att': ('any file of the package', 'attachments: nesting, component names and FRBR URIs, headings / subheadings / titles, attributes, what may follow an attachment'),
+        'tbl': ('any file of the package', 'tables, block lists, bullet lists and block containers: grammar rules, to_dict, XML building, unparsing'),
+        'debate': ('any file of the package', 'the debate and judgment document types: their structure rules, speech containers / groups / blocks, FROM lines, the by attribute, judgment parts'),
+        'json': ('any file of the package', 'the intermediate dict tree and its JSON form, the command-line tool (arguments, output, exit status)')},
  '9': {'apiA': ('any file of the package', 'behaviour that only shows with less common but legal API use: a non-empty eid_prefix, fragment roots (hier_element, block_element, table, ...), the same parser object used for several calls, parse() + to_dict() + tree_to_xml() called separately, unparse of a sub-element, the debate and judgment roots'),
        'wsA': ('any file of the package', 'the handling of white space and Unicode: tabs, no-break and other Unicode spaces, CR/CRLF, combining characters, astral characters, case mapping (lower()/upper() on non-ASCII), characters that XML or regexes treat specially'),
        'orderA': ('any file of the package', 'ordering and positions: the order of children, of attributes, of footnotes, of attachments; first/last element special cases; off-by-one at the start or end of a list, line or document'),
